@@ -117,7 +117,29 @@ CHECKS = {
 
 NOT_APPLICABLE = {}
 
+# additions of the third session (appended to the texts above)
+ADDENDA = {
+ "C01": (" Garbling randomness also comes from degenerate streams (all zero, all one, counting, one bit per byte) and labels are compared byte by byte, independent of Label.Equal.", ""),
+ "C03": (" Mpcl.tla also covers returns inside unrolled loops (guarded by the loop variable or a run-time condition), nested loops, the loop variable as operand, a local shadowing a package-level variable, and two-operator expressions without parentheses (precedence, associativity); a refusal of a generated program other than the one known class is a violation.", ""),
+ "C04": (" TwoParty.tla has a deviating evaluator (any OT range, any choice bits): Secrecy is model-checked under the range check as coded and a loosened check is rejected; on the real code the evaluator's range message is rewritten to seven other ranges and what the garbler hands to OT is inspected.", ""),
+ "C05": (" Second layer StreamWire.tla (gate message encoding, declarations, the evaluator's paged and temporary label stores) model-checked by TLC with two deviation guards; transcripts of real streaming sessions are parsed into messages by an independent parser and validated as behaviours of the evaluator machine (StreamWireTrace.tla, drift level). Corpora include cache-stress programs (same operator, partly equal operand types), struct/array-of-array/bool arguments and results, builtin circuits.", ""),
+ "C06": (" A sub-protocol in which sender and receiver wait for each other is an outcome (stall), and the outputs of earlier batches are re-validated after later batches on the same instance.", ""),
+ "C07": (" Arith.tla also defines array index (the documented low-bits rule), logical and/or and bit tests with a constant bit number; complete tables for arrays of 1..6 (8) elements.", ""),
+ "C08": (" Histories include a program that fails to compile after imported packages were instantiated and a program importing several packages with package-level variables.", ""),
+ "C11": (" The library's own in-memory transport p2p.Pipe is exercised with an early Close and a late, slow reader.", ""),
+ "C13": (" Also: string results and arrays of strings/booleans (IOEnc.tla StrWires/StrChars), circuit.Sizes (size inference from Go values: sufficient, equal to the textual form, read back), mpc.Results.", ""),
+ "C15": (" The outputs of earlier accepted batches are re-validated after later Sends on the same sender.", ""),
+ "C16": (" In streaming sessions every program-information byte and the first fields of the result message are also halved (smaller sizes/counts), not only flipped.", ""),
+ "C17": (" Pool.tla models Garble failing after Get (FailPuts; a double Put on the error path is rejected); stress goroutines garble with a randomness source that gives out part way.", ""),
+ "C19": (" Mesh.tla rejects an accept loop that runs before need[] is set (EarlyAccept); free-running formation holds the highest-id joiner at the peer-list gate while lower ids dial it.", ""),
+ "C20": (" Moduli around the machine word sizes (2^31-1 .. 2^64+13, 2^127-1, 2^128-159, 2^192-237) are part of every run.", ""),
+}
+
+
 def main():
+    for pid, (t, x) in ADDENDA.items():
+        CHECKS[pid]["technique"] += t
+        CHECKS[pid]["text"] += x
     props = [json.loads(l) for l in open(os.path.join(VERIF, "properties.jsonl"))]
     checks = []
     for p in props:
